@@ -330,6 +330,10 @@ ATTACKS = {
     # the same after page code has replaced functions of the shared string table (reachable through the string metatable):
     # what the loaders rely on must not be something a page can swap
     "bytecode_page_after_string_table_override": "local s = getmetatable('').__index; local saved = {} for _, k in ipairs({'byte', 'sub', 'find', 'char', 'len', 'match'}) do saved[k] = s[k] end s.byte = function() return 0 end s.sub = function() return '' end s.find = function() return nil end s.match = function() return nil end local ok, r = pcall(require, 'Module:bcpage2') for k, v in pairs(saved) do s[k] = v end return (ok and r == 'RAN-FROM-BYTECODE') and 'GOT precompiled chunk executed after replacing string.byte' or 'no'",
+    # keys that are not strings: a table whose tostring() is an underscore name, a number, a boolean - none of them may name
+    # an attribute of a Python object
+    "helper_indexed_with_tostring_table": "local k = setmetatable({}, {__tostring = function() return '__globals__' end}); local ok, g = pcall(function() return mw_python_get_page_info[k] end); local k2 = setmetatable({}, {__tostring = function() return '__closure__' end}); local ok2, c = pcall(function() return frame.preprocess[k2] end); return ((ok and g ~= nil) or (ok2 and c ~= nil)) and 'GOT attribute through a non-string key' or 'no'",
+    "helper_indexed_with_number_or_boolean": "local hit = false; for _, k in ipairs({1, 0, -1, 1.5}) do local ok, v = pcall(function() return mw_python_get_page_info[k] end); if ok and v ~= nil then hit = true end end; local ok3, v3 = pcall(function() return mw_python_get_page_info[true] end); if ok3 and v3 ~= nil then hit = true end; return hit and 'GOT value through a numeric/boolean key' or 'no'",
     "string_dump_available": "return (string.dump ~= nil) and 'GOT string.dump' or 'no'",
     "python_exception_object": "local ok, e = pcall(mw_python_get_page_content); return (not ok and type(e) ~= 'string') and ('GOT error value of type ' .. type(e)) or 'no'",
     "python_exception_object_xpcall": "local seen; xpcall(function() mw_python_get_page_content() end, function(e) seen = type(e) return e end); return (seen ~= nil and seen ~= 'string') and ('GOT handler sees ' .. seen) or 'no'",
